@@ -1,5 +1,5 @@
 SPECIFICATION MCSpec
-CONSTANTS Page = 4  MaxOff = 9  MaxWrites = 2  CopyLens = {1, 9}  ContigGaps = {0, 1, 5}  DumpEdges = FALSE
+CONSTANTS Page = 4  MaxOff = 8  MaxWrites = 2  CopyLens = {1, 8}  ContigGaps = {0, 1, 5}  DumpEdges = FALSE
 INVARIANTS TypeOK NodesOK LawCopy LawContig LawSameCover
 PROPERTY Refines
 CHECK_DEADLOCK FALSE
